@@ -305,11 +305,18 @@ pub(super) fn find_date_time(
                 sorted = alternate_time.dst_start_end_order() != core::cmp::Ordering::Greater;
             }
 
+            // Order of DST start and end times in the current year, before sorting
+            let dst_start_first = additional_transition_times[2] <= additional_transition_times[3];
+
             if !sorted {
                 for chunk in additional_transition_times.chunks_exact_mut(2) {
                     chunk.swap(0, 1);
                 }
             };
+
+            // If the transitions are still not sorted, the DST periods (or the standard time periods) last more than one year and overlap each other,
+            // so the corresponding local time type is always in effect and there are no transitions
+            let overlapping = !additional_transition_times.windows(2).all(|x| x[0] <= x[1]);
 
             let transition_start = (alternate_time.std(), alternate_time.dst(), unix_time_std, unix_time_dst);
             let transition_end = (alternate_time.dst(), alternate_time.std(), unix_time_dst, unix_time_std);
@@ -324,6 +331,16 @@ pub(super) fn find_date_time(
                 Some(last_transition) => time_zone_ref.unix_leap_time_to_unix_time(last_transition.unix_leap_time())?,
                 None => i64::MIN,
             };
+
+            if overlapping {
+                let (local_time_type, unix_time) = if dst_start_first { (alternate_time.dst(), unix_time_dst) } else { (alternate_time.std(), unix_time_std) };
+
+                if previous_transition_unix_time <= unix_time {
+                    found_date_time_list.push(FoundDateTimeKind::Normal(new_datetime(*local_time_type, unix_time)));
+                }
+
+                return Ok(());
+            }
 
             // Check transitions in order
             if let Some(first_valid) = additional_transition_times.iter().position(|&unix_time| previous_transition_unix_time < unix_time) {
